@@ -18,6 +18,11 @@ RULE = ("documents: hand-made small documents for every syntactic feature (edits
         "documents parsed WITHOUT locations containing structurally equal siblings (selections, arguments, directives, list values, object fields, definitions; edits at every occurrence, checked by identity; child list objects never edited in place); nested chains and ChainedVisitor subclasses with their own enter/leave (recording, skipping) at every position of an outer chain; DispatchingVisitor class hierarchies created per case and used in six orders (base then subclass, reverse, siblings, subclass of subclass); chains of 2..4 recorders where every member in turn raises SkipNode at every node kind (all calls on all other nodes compared); chains of 1..3 (plain and Dispatching) members configured through the constructor or by assigning / extending / re-ordering `visitors` afterwards (also from a subclass), sub-tree roots, wrong-kind replacements. "
         "non-trivial = distinct (document, visitor script) whose visit enters >= 3 nodes")
 ASSUMPTIONS = [
+    "SkipNode raised by a MEMBER of a ChainedVisitor - reading of the statement: `the skip signal suppresses only that node's children and ITS "
+    "(the raiser's) leave call`; every other member still gets enter (in order) and leave (in reverse) for the node, i.e. stays balanced "
+    "(`enter and then leave exactly once` for a visitor that does not skip); the children are visited by nobody. The code before fix C18-W8 aborts the "
+    "loop instead (members before the raiser never leave the node, members after it never enter it: TypeInfoVisitor's stacks shift in validation); "
+    "the hunter's variant (continue entering, re-raise) leaves every member unbalanced and does not remove the bogus validation error",
     "replacement by a node of ANOTHER class admitted at that position (selection / value / type reference / definition kinds): the statement is read as "
     "`the replacement is substituted at exactly that position, leave is called once with it, nothing else changes, nothing raises`; whether the "
     "replacement's OWN children are traversed is not stated - the oracle accepts both, the model follows the code (with fix C18-W7: traversed by the "
